@@ -66,6 +66,16 @@ CHECKS = {
    note="Trusted: the transcription of the consumers' assertions; A*M^2 is flagged only on a certain failure (lower bound on A).", ref="3/C20"),
 }
 
+# additions of session 4 (see DESIGN.md 8.5, fourth round)
+CHECKS["C03"]["text"] += " Family fbase-divisor: a prime of the factor base (14 primes on both sides of the sieve's size classes) divides a 100..160-bit n, under Qs/Mpqs/Siqs."
+CHECKS["C04"]["text"] += " Free-running supplement (labelled one schedule per run): real rayon pools of 1..16 threads on a sub-corpus, including six 30..61-bit semiprimes where pool threads start from the far end of the work ranges."
+CHECKS["C05"]["text"] += " (c) abort already true when the call starts on 128..350-bit (thorough 500-bit) semiprimes x 6 selectors: CPU of the whole call <= 1 s; (d) pooled ECM/SIQS/MPQS/automatic runs with the flag raised from outside after 3-6 s of CPU: CPU of all threads between signal and return <= 2.5 s, a call still working 40 s later is abandoned and reported."
+CHECKS["C06"]["text"] += " The family p(2p-1) is enumerated completely below 2^64 in both tiers (segmented sieve over p), the shapes p(3p-2), p(4p-3), p(5p-4) to p < 2^29 (quick) / completely (thorough)."
+CHECKS["C10"]["text"] += " roots_eval on the complete grid 1..72 roots x 1..40 points (thorough 140 x 70)."
+CHECKS["C12"]["text"] += " History part for the classical sieve: the real qsieve() is run up to its 5th large block on every modulus of 40..160 bits and the root tables it installs after each large-block shift (hook H6) must be exactly the roots of the polynomial on that block."
+CHECKS["C13"]["text"] += " Root table 'bucket-pile' (a 256-wide bucket of an odd block overflows into the overflow list below its capacity at reported positions) and a 12500-prime base (primes above 2^18 hitting a 20-block interval several times) in the quick tier."
+CHECKS["C16"]["text"] += " Three-prime inputs for P-1 and P+1 (ring shrunk between the stages); the 64-bit two-stage PM1Base::factor: 8 budgets x EVERY stage-2 prime the budget pays for."
+
 NOT_APPLICABLE = {
 }
 
